@@ -62,6 +62,8 @@ def main(argv=None):
 
 
 if __name__ == "__main__":
+    import signal
+    signal.signal(signal.SIGPIPE, signal.SIG_DFL)
     sys.stdout.reconfigure(line_buffering=True)
     code = main()
     sys.stdout.flush()
